@@ -101,6 +101,12 @@ CLAIMS = {
   "note": "Partial by nature (runtime behaviour). Premise workerClosuresWriteFree regenerated from source.",
   "technique": "Lean 4 proof over a message-passing pool model + race-detector and concurrent-vs-alone differential runs",
  },
+ "C17": {
+  "text": "Lean theorems over the executable models of NewArrayFromBatchData / NewMapFromBatchData (element loop, close-out, tail lend-or-merge at every level, index levels, root re-basing), CopyNonRefSimple (arrays and maps, standalone and inlined sources) and the byte-slice conversions: the build always succeeds with the input as content, the full structural invariant (ArrInv / MapInv) and fresh slab IDs, for EVERY element stream, legal threshold and depth; the map build keeps seed, count and order, rejects unsorted, duplicate and seed-0 streams and accepts every valid one; copy is offered iff single slab of plain values, then succeeds with equal content, re-based size, the invariant and fresh IDs; bytes round-trip. Tie: every build / copy / conversion of the batch stream replayed on the model (observations, storage effects, dumps of all slabs) + model-free oracles (content, Verify*, serialization, health with exact root count, disjoint slab sets, mutate-one-check-other).",
+  "design_ref": "DESIGN.md 7/C17, 13.3",
+  "note": "batch_map_content gives content as a permutation in general (exact order proved without first-level collisions; compared exactly by the correspondence); nested containers as elements of copy sources are covered by the model-free oracle only; batch_array_inv assumes at most 2^32-1 values.",
+  "technique": "Lean 4 proofs (content, invariant, freshness, copyability iff) over executable models of the batch builders, copy and byte conversion + differential replay of the implementation's builds",
+ },
  "C20": {
   "text": "Lean theorems prove, for EVERY heap of loaded slabs, that the (repaired) health check accepts exactly the healthy heaps and returns the true root set (health_sound, health_complete), that each of the four corruption kinds applied to any healthy heap at any slab is rejected, and that the all-child-references query is exact on healthy heaps. The model is tied to CheckStorageHealth/GetAllChildReferences by replaying heaps dumped from real storages (healthy and corrupted) and comparing outcomes. The defect this check found on the pinned tree (dangling reference to a slab removed through the storage passes the check) was repaired by a fix: commit; see known_findings.txt.",
   "design_ref": "DESIGN.md 7/C20, 8 (F1)",
